@@ -326,10 +326,32 @@ func (c *Ctx) PkgOf(f *ssa.Function) *packages.Package {
 // FnName is a stable, position-free name of a function: pkg.(*T).M, pkg.F,
 // pkg.F$1 for literals.
 func (c *Ctx) FnName(f *ssa.Function) string {
-	s := f.String()
-	s = strings.ReplaceAll(s, c.Mod+"/", "")
-	s = strings.ReplaceAll(s, c.Mod, "hts")
-	return s
+	if f.Parent() != nil {
+		return c.FnName(f.Parent()) + strings.TrimPrefix(f.Name(), f.Parent().Name())
+	}
+	pkg := ""
+	if f.Pkg != nil {
+		pkg = strings.TrimPrefix(strings.TrimPrefix(f.Pkg.Pkg.Path(), c.Mod), "/")
+		if pkg == "" {
+			pkg = "hts"
+		}
+	}
+	if recv := f.Signature.Recv(); recv != nil {
+		t := recv.Type()
+		ptr := ""
+		if p, ok := t.(*types.Pointer); ok {
+			t, ptr = p.Elem(), "*"
+		}
+		name := t.String()
+		if n, ok := t.(*types.Named); ok {
+			name = n.Obj().Name()
+		}
+		if ptr != "" {
+			return fmt.Sprintf("%s.(*%s).%s", pkg, name, f.Name())
+		}
+		return fmt.Sprintf("%s.%s.%s", pkg, name, f.Name())
+	}
+	return pkg + "." + f.Name()
 }
 
 // ---- obligations -----------------------------------------------------------
